@@ -22,3 +22,7 @@ PROPS = {
         "not_decided": "that a guard closure restores exactly the right counts (only necessary conditions); leak-vs-drop accounting of individual elements",
     },
 }
+
+NOT_APPLICABLE = {
+    "C18": "Both sentences are about numeric results of bit-tricks and equality of two builds' observable values; deciding them needs bit-precise symbolic evaluation or execution, outside the static-analysis family. A structural proxy would fire on behaviour-preserving rewrites. The portable back-end is still covered by every other rule (config all-generic) and its width/stride/mask constants by R-GROUP-CONSTS under C02 (DESIGN.md section 7).",
+}
